@@ -154,9 +154,14 @@ def _unit_alternative_shadowed(case, detail):
     s, x = m.group(1), m.group(2)
     cg = rt.canon(case["grammar"])
     alts = cg.get(x, [])
-    if [s] not in [list(a) for a in alts]:
+    unit = [] if s == "" else [s]       # the empty alternative is the empty symbol list in the canonical grammar
+
+    def has_unit(alternatives):
+        return any(list(a) == unit or (s == "" and list(a) == [""]) for a in alternatives)
+
+    if not has_unit(alts):
         return False
-    return any(len(a) == 1 and a[0] in cg and [s] in [list(b) for b in cg[a[0]]] for a in alts)
+    return any(len(a) == 1 and a[0] in cg and has_unit(cg[a[0]]) for a in alts)
 
 
 def _run_raw(case, text):
